@@ -45,7 +45,7 @@ const punct1 = "+-*/%<>=!~&|^?:;,.(){}[]"
 // lex splits src into tokens.  It is shared by all dialects; dialect
 // differences (keywords, numeric suffixes, '::') are handled by the parser.
 func lex(d Dialect, src string) []Token {
-	var toks []Token
+	toks := make([]Token, 0, len(src)/3+16)
 	line, col := 1, 1
 	i := 0
 	n := len(src)
